@@ -68,6 +68,19 @@ func genC09(r *Rng, e *Emitter, n int) {
 		mp2 := geom.NewMultiPolygonFlat(geom.XY, []float64{0, 0, 4, 0, 4, 4, 0, 0}, [][]int{{8}, {}, {}})
 		emit("mpg", mp2, sxIntss(mp2.Endss()))
 	}
+	// boundary sizes: long rings / lines (a ring followed by another ring, so that a term past the
+	// end of the first one would be visible)
+	for _, bc := range bigCases(n >= 100000) {
+		stride, pts := bc[0], bc[1]
+		l := layoutForStride(stride)
+		ring := r.measureRun(stride, pts, 1, true)
+		second := r.measureRun(stride, 5, 1, true)
+		flat := append(append([]float64{}, ring...), second...)
+		emit("pg", geom.NewPolygonFlat(l, flat, []int{len(ring), len(flat)}), sxInts([]int{len(ring), len(flat)}))
+		emit("ls", geom.NewLineStringFlat(l, ring), "()")
+		emit("mpg", geom.NewMultiPolygonFlat(l, flat, [][]int{{len(ring)}, {len(flat)}}), sxIntss([][]int{{len(ring)}, {len(flat)}}))
+		e.tally("big")
+	}
 	for i := 0; i < n; i++ {
 		l := layouts[r.Intn(len(layouts))]
 		s := l.Stride()
